@@ -133,7 +133,10 @@ def sha(path):
 def do_call(c, data_dir):
     if c["k"] == "gen":
         import esr.generation.duplicate_checker as dc
-        dc.main(c["basis"], int(c["n"]))
+        if "gseed" in c:
+            dc.main(c["basis"], int(c["n"]), seed=int(c["gseed"]))
+        else:
+            dc.main(c["basis"], int(c["n"]))
     elif c["k"] == "fit":
         lik = make_lik(data_dir, c.get("data", "data.txt"), c["run"], c["basis"])
         for st in c.get("stages", ["fit", "fisher", "match", "combine"]):
